@@ -193,7 +193,9 @@ protected:
   public:
     vert_set_wrap_t(const vert_set_t &_vs) : vs(_vs) {}
 
-    bool operator[](vert_id v) const { return vs.find(v) != vs.end(); }
+    // GraphOps::close_after_widen asks "is v stable?": the wrapped set
+    // contains the UNSTABLE vertices.
+    bool operator[](vert_id v) const { return vs.find(v) == vs.end(); }
     const vert_set_t &vs;
   };
 
